@@ -101,24 +101,28 @@ def run(ctx, rep):
 
     # ---- C05.short ---------------------------------------------------------------
     if b is not None:
-        found = False
-        for cb in F.closures_of(b):
-            s = ok.summary(cb)
-            if s is not TOP and or_fact_match(s, [("cmp", "^Eq$", None, None), ("cmp", "^Lt$", "const:14$", "block_size")]):
-                found = True
-                rep.ok("C05.short", "read_frame known-total arm: size==remaining || size>14", loc_of(cb))
-        if not found:
-            rep.bad("C05.short", "read_frame known-total arm: size==remaining || size>14", loc_of(b),
-                    "no closure of read_frame guards the header with (block_size == remaining) || (14 < block_size)")
-        # every place that raises ShortBlock applies the rule with the last-block exemption
+        def short_guard(eb, bi_):
+            """the ShortBlock exit is taken exactly when size != remaining && size <= 14 (either idiom)"""
+            if eb.kind == "Closure":
+                sm = ok.summary(eb)
+                if sm is not TOP and or_fact_match(sm, [("cmp", "^Eq$", None, None), ("cmp", "^Lt$", "const:14$", "block_size")]):
+                    return True
+            f = ok.path_facts(eb).get(bi_) or frozenset()
+            if f is TOP:
+                return False
+            ne = any(x[0] == "cmp" and x[1] == "Ne" for x in f)
+            le = any(x[0] == "cmp" and ((x[1] == "Le" and str(x[3]) == "const:14") or (x[1] == "Lt" and str(x[3]) == "const:15") or (x[1] == "Ge" and str(x[2]) == "const:14") or (x[1] == "Gt" and str(x[2]) == "const:15")) for x in f)
+            return ne and le
         sb_sites = [x for x in error_sites(F, "ShortBlock") if x[0].path.startswith(b.path)]
+        found = False
         for eb, bi_, st_ in sb_sites:
-            sm = ok.summary(eb) if eb.kind == "Closure" else TOP
-            good_ = sm is not TOP and or_fact_match(sm, [("cmp", "^Eq$", None, None), ("cmp", "^Lt$", "const:14$", "block_size")])
+            good_ = short_guard(eb, bi_)
+            found = found or good_
             rep.check("C05.short", "ShortBlock is raised only by the rule `size == remaining || size > 14` (a short last block is legal)", good_, eb.loc(st_["sp"]), "",
                       "Error::ShortBlock is raised by a test that lacks the last-block exemption: a valid stream whose final block has 14 samples or fewer is refused")
-        # the guard's failure must yield ShortBlock
-        rep.check("C05.short", "ShortBlock raised in read_frame", any(eb.path.startswith(b.path) for eb, _, _ in error_sites(F, "ShortBlock")), loc_of(b))
+        rep.check("C05.short", "read_frame known-total arm: size==remaining || size>14", found, loc_of(b), "",
+                  "nothing in read_frame guards the header with (block_size == remaining) || (14 < block_size)")
+        rep.check("C05.short", "ShortBlock raised in read_frame", bool(sb_sites), loc_of(b))
 
     # ---- C05.release ----------------------------------------------------------------
     if b is not None:
